@@ -286,6 +286,28 @@ func frameLayout(c *core.Ctx) {
 				flagReads[v] = true
 				rl.flagIdx = v
 			}
+			// through a local that only ever holds that prefix byte (or zero, on the paths that fail)
+			if via := astx.ObjOf(info, astx.Unparen(as.Rhs[0])); via != nil {
+				ast.Inspect(r.Body, func(y ast.Node) bool {
+					as2, ok := y.(*ast.AssignStmt)
+					if !ok || len(as2.Lhs) != len(as2.Rhs) {
+						return true
+					}
+					for i, l := range as2.Lhs {
+						if astx.ObjOf(info, l) != via {
+							continue
+						}
+						if ie, ok := astx.Unparen(as2.Rhs[i]).(*ast.IndexExpr); ok && astx.ObjOf(info, ie.X) == rarr {
+							v, _ := astx.ConstInt(info, ie.Index)
+							flagReads[v] = true
+							rl.flagIdx = v
+						} else if z, isC := astx.ConstInt(info, as2.Rhs[i]); !isC || z != 0 {
+							flagReads[-2] = true // something else ends up in Flags
+						}
+					}
+					return true
+				})
+			}
 		}
 		return true
 	})
